@@ -15,6 +15,10 @@ mod gen;
 mod engine;
 mod keysim;
 mod worlda;
+mod loopsim;
+mod worldb;
+mod wiresim;
+mod storesim;
 mod registry;
 
 use engine::*;
@@ -37,6 +41,7 @@ fn main() {
     "list" => { for p in registry::claimed() { println!("{}", p); } 0 }
     _ => usage(),
   };
+  storesim::cleanup_scratch();
   std::process::exit(code);
 }
 
